@@ -65,7 +65,7 @@ func runC49(c *Ctx) {
 			// look at every alloc of the header struct type
 			var hdrs []*ssa.Alloc
 			allInstrs(f, func(in ssa.Instruction) {
-				if al, oka := in.(*ssa.Alloc); oka && al.Type() == hdr.Type() {
+				if al, oka := in.(*ssa.Alloc); oka && al.Type().String() == hdr.Type().String() {
 					hdrs = append(hdrs, al)
 				}
 			})
